@@ -1037,7 +1037,10 @@ class TeX(object):
         self.castRef()
 
         """
-        label = self.castString(tokens, **kwargs)
+        label = self.normalize(tokens)
+        if not isinstance(label, str):
+            # active characters (e.g. `_' in math mode) are part of the name
+            label = label.source.strip()
         self.ownerDocument.context.label(label)
         return label
 
@@ -1057,7 +1060,10 @@ class TeX(object):
         self.castLabel()
 
         """
-        ref = self.castString(tokens, **kwargs)
+        ref = self.normalize(tokens)
+        if not isinstance(ref, str):
+            # active characters (e.g. `_' in math mode) are part of the name
+            ref = ref.source.strip()
         self.ownerDocument.context.ref(kwargs['parentNode'], kwargs['name'], ref)
         return ref
 
